@@ -35,4 +35,30 @@ Section WithHash.
     else (ty =? ty_ordinary)%Z && (length bits <=? 1023)%nat && (length rs <=? 4)%nat && forallb wf_virtual rs.
 
   Definition collision : Prop := exists m1 m2 : list N, m1 <> m2 /\ H m1 = H m2.
+
+  (* built by pruning, for original trees of ANY cell types (nested Merkle proofs / updates included).
+     [virt_gen j v t]: v is t with some level-0 subtrees replaced by pruned branches, where j is the
+     number of Merkle cells above the current node INSIDE the original tree.  A level-0 subtree below j
+     Merkle cells of the original ends up below j+1 Merkle cells once the proof cell is on top, so it is
+     replaced by the pruned branch of mask 2^j (j <= 2: a level mask has three bits).  Children of
+     Merkle proof / update nodes are one Merkle cell deeper. *)
+  Inductive virt_gen : nat -> cell -> cell -> Prop :=
+  | VG_same : forall j t, virt_gen j t t
+  | VG_prune : forall j t, (j <= 2)%nat -> s_mask t = 0 -> virt_gen j (s_prune H j t) t
+  | VG_node : forall j ty bits vs ts,
+      Forall2 (virt_gen (if is_merkle ty then S j else j)) vs ts ->
+      virt_gen j (Cell ty bits vs) (Cell ty bits ts).
+
+  (* what acceptance of such a proof can guarantee: node by node v is t (same type, same data, children
+     related one Merkle cell deeper below Merkle nodes), down to the places where either side is a pruned
+     branch; there, j Merkle cells deep, both sides have the same hash at level j - a pruned branch of the
+     proof names the level-j hash of the subtree it stands for (and where the original is itself a partial
+     tree, the proof may show more than the original's pruned branch, with that hash). *)
+  Definition is_prunedc (c : cell) : bool := let 'Cell ty _ _ := c in (ty =? ty_pruned)%Z.
+  Inductive covers_gen : nat -> cell -> cell -> Prop :=
+  | CG_hash : forall j v t, is_prunedc v || is_prunedc t = true ->
+                            s_hash_at H v j = s_hash_at H t j -> covers_gen j v t
+  | CG_node : forall j ty bits vs ts, (ty =? ty_pruned)%Z = false ->
+      Forall2 (covers_gen (if is_merkle ty then S j else j)) vs ts ->
+      covers_gen j (Cell ty bits vs) (Cell ty bits ts).
 End WithHash.
